@@ -28,7 +28,7 @@ CHECKS = {
             "own state, not captured caller data (PU-CAPT, decided from every store to the attribute in the class hierarchy), a "
             "clock reading that only reaches logging calls — also through parameters of helpers — is no source of "
             "non-repeatability (PU-RNG). "
-            "PU-SHARE: a mutable module-level object, or a mutable entry of a module-level table, is not stored on an instance or returned without a copy. PU-FLAGS: the writeable flag of a caller's array (an effect on the array object, not a write: fresh views do not count) is put back in a finally, faithfully. PU-CACHE also covers a setter that is bypassed (pattern F), identity-keyed caches validated against the contents (pattern G: the record must hold a private copy) and a cached_property over what a later fit / set_params changes (pattern H); PU-ALIAS: no in-place write into an attribute of `self.copy()` that copy() leaves shared with the original; collections.* / weakref containers at module level are module state. PU-LAZY: every public method of the two landscape classes, "
+            "PU-SHARE: a mutable module-level object, or a mutable entry of a module-level table, is not stored on an instance or returned without a copy. PU-FLAGS: the writeable flag of a caller's array (an effect on the array object, not a write: fresh views do not count) is put back in a finally, faithfully. PU-CACHE also covers a setter that is bypassed (pattern F), identity-keyed caches validated against the contents (pattern G: the record must hold a private copy) and a cached_property over what a later fit / set_params changes (pattern H); PU-ALIAS: no in-place write into an attribute of `self.copy()` that copy() leaves shared with the original; PU-EQ: no `__eq__` by np.array_equiv (equality after broadcasting); collections.* / weakref containers at module level are module state. PU-LAZY: every public method of the two landscape classes, "
             "and every module-level function handed a landscape, reads what compute_landscape stores lazily (critical_pairs / values / max_depth, read off its stores) only behind the computation. "
             "Declines: bit-identical repeatability of floating-point results.",
             "Trusted: the copy/view/mutator table for external callables in pst/core/own.py; user-supplied weight/kernel "
